@@ -10,7 +10,7 @@ from typing import Dict, List, Optional, Set, Tuple
 from .core import AnalysisError, Report
 from .emit import Folder, Slot, Tpl, balance_errors
 from .prog import (ClassInfo, Program, bind_call, dotted, enclosing, func_params, guards_of,
-                   inline_locals, local_assignments, parent, single_def, stmt_of, unparse, walk_no_nested)
+                   inline_locals, local_assignments, parent, single_def, stmt_of, unparse, value_def, walk_no_nested)
 
 PW = "gtwrap/pybind_wrapper.py"
 
@@ -48,6 +48,31 @@ def find_tpl(ctx, fn, need: Set[str]) -> Optional[Tpl]:
             best = t
             best._stmt = st      # type: ignore[attr-defined]
     return best
+
+
+def emitter(ctx, name: str):
+    """The method of PybindWrapper that builds the text for one element: `name` itself, or - when `name` builds no text
+    of its own and only joins what one per-element helper `self.<h>(element, ...)` returns - that helper."""
+    ci, prog = pw(ctx)
+    fn = prog.method("PybindWrapper", name)
+    if any(True for _ in format_sites(fn)):
+        return fn
+    hs = []
+    for c in ast.walk(fn):
+        if isinstance(c, ast.Call) and isinstance(c.func, ast.Attribute) and isinstance(c.func.value, ast.Name) and c.func.value.id == "self":
+            h = prog.find_method(ci, c.func.attr)
+            if h is not None and any(True for _ in format_sites(h[1])) and h[1] not in hs:
+                hs.append(h[1])
+    return hs[0] if len(hs) == 1 else fn
+
+
+def slot_text(s_: Slot) -> str:
+    """What a slot prints, as source text: the bound expression plus the attribute path written in the format field
+    (`{enumerator.name}` bound to `enumerator` and an f-string's `{enumerator.name}` both read `enumerator.name`)."""
+    base = unparse(s_.val) if s_.val is not None else "?"
+    if s_.field != s_.key and s_.field.startswith(s_.key) and s_.expr is not None and unparse(s_.expr) != s_.field:
+        return base + s_.field[len(s_.key):]
+    return base
 
 
 def values_of(fn, e: ast.AST) -> List[ast.AST]:
@@ -300,7 +325,7 @@ def rule_one_argument_list(ctx, rep: Report, rid="B1", min_emitters=4):
     ci, prog = pw(ctx)
     n = 0
     for name in EMITTERS:
-        fn = prog.method("PybindWrapper", name)
+        fn = emitter(ctx, name)
         uses = _arg_list_uses(fn)
         if not uses:
             raise AnalysisError(f"{name}: no argument-list projection found")
@@ -351,7 +376,7 @@ def rule_one_argument_list(ctx, rep: Report, rid="B1", min_emitters=4):
     for name, slots in (("_wrap_method", ("args_signature_with_names", "function_call", "py_args_names")),
                         ("_wrap_dunder", ("args_signature_with_names", "function_call", "py_args_names")),
                         ("wrap_functions", ("args_signature", "function_call", "py_args_names"))):
-        fn = prog.method("PybindWrapper", name)
+        fn = emitter(ctx, name)
         best = find_tpl(ctx, fn, set(slots))
         if best is None:
             raise AnalysisError(f"{name}: binding template not found")
@@ -471,8 +496,11 @@ def rule_receiver_consistency(ctx, rep: Report, rid="B3"):
     tpl = find_tpl(ctx, fn, {"cdef", "opt_self", "function_call"})
     if tpl is None:
         raise AnalysisError("_wrap_method: registration template not found")
-    cdef = tpl.slot("cdef").expr
-    opt_self = tpl.slot("opt_self").expr
+    cdef = tpl.slot("cdef").val
+    opt_self = tpl.slot("opt_self").val
+    if not isinstance(opt_self, ast.IfExp) and tpl.slot("opt_self").sub is None:
+        # `opt_self = f"{cpp_class}* self" if is_method else ""` held in a local: the conditional behind the name
+        opt_self = value_def(fn, opt_self.id) if isinstance(opt_self, ast.Name) else opt_self
     fc = tpl.slot("function_call").sub
     if fc is None or fc.slot("caller") is None:
         raise AnalysisError("_wrap_method: call template / caller slot not found")
@@ -516,20 +544,20 @@ def rule_receiver_consistency(ctx, rep: Report, rid="B3"):
     # opt_comma agrees with presence of self and arguments
     oc = tpl.slot("opt_comma")
     ok_oc = False
-    if oc is not None and isinstance(oc.expr, ast.IfExp) and isinstance(oc.expr.test, ast.BoolOp) \
-            and isinstance(oc.expr.test.op, ast.And) and len(oc.expr.test.values) == 2:
-        a, b = oc.expr.test.values
+    if oc is not None and isinstance(oc.val, ast.IfExp) and isinstance(oc.val.test, ast.BoolOp) \
+            and isinstance(oc.val.test.op, ast.And) and len(oc.val.test.values) == 2:
+        a, b = oc.val.test.values
         self_test = opt_self.test if isinstance(opt_self, ast.IfExp) else None
         ok_oc = self_test is not None and unparse(a) == unparse(self_test) and \
             unparse(one_value(fn, b)).endswith(".args.names()")
     rep.add(rid, "separator between self and the parameters present exactly when both are", ok_oc,
-            f"opt_comma <- {unparse(oc.expr) if oc else None}", f"{ci.mod.rel}:{fn.lineno}")
+            f"opt_comma <- {unparse(oc.val) if oc else None}", f"{ci.mod.rel}:{fn.lineno}")
 
 
 def rule_return_polarity(ctx, rep: Report, rid="B4"):
     ci, prog = pw(ctx)
     for name in ("_wrap_method", "wrap_functions"):
-        fn = prog.method("PybindWrapper", name)
+        fn = emitter(ctx, name)
         fc = find_tpl(ctx, fn, {"opt_return", "caller"})
         if fc is None:
             raise AnalysisError(f"{name}: function_call template not found")
@@ -560,27 +588,55 @@ def rule_property_polarity(ctx, rep: Report, rid="B5"):
     fn = prog.method("PybindWrapper", "wrap_properties")
     fo = folder_for(ctx, fn)
     hit = False
-    for c in ast.walk(fn):
-        if isinstance(c, ast.Call) and isinstance(c.func, ast.Attribute) and c.func.attr == "format":
-            t = fo.fold(c)
-            if t is None or t.slot("property") is None:
-                continue
-            hit = True
-            e = t.slot("property").expr
-            loopvar = next((l.target.id for l in walk_no_nested(fn) if isinstance(l, ast.For)), None)
-            ok = isinstance(e, ast.IfExp) and unparse(e.test) == f"{loopvar}.ctype.is_const" and \
-                isinstance(e.body, ast.Constant) and e.body.value == "readonly" and \
-                isinstance(e.orelse, ast.Constant) and e.orelse.value == "readwrite"
-            rep.add(rid, "property:def_readonly iff the declared type is const, else def_readwrite", ok,
-                    f"property <- {unparse(e)}", f"{ci.mod.rel}:{c.lineno}")
-            lit = t.literal("@").replace(" ", "")
-            names = [s.key for s in t.slots()]
-            rep.add(rid, "property:bound as &Class::name under the same name",
-                    lit == '@.def_@("@",&@::@)' and names[2] == names[4] == "property_name" and names[3] == "cpp_class"
-                    and unparse(t.slot("property_name").expr) == f"{loopvar}.name",
-                    f"skeleton {lit!r}, slots {names}", f"{ci.mod.rel}:{c.lineno}")
+    loopvar = next((l.target.id for l in ast.walk(fn) if isinstance(l, (ast.For, ast.comprehension)) and isinstance(l.target, ast.Name)), None)
+    for c in format_sites(fn):
+        t = fo.fold(c)
+        if t is None:
+            continue
+        t = t.flat()
+        # the slot that completes `.def_<...>`: found by its place in the emitted text, whatever the format key is called
+        idx = next((i for i, p in enumerate(t.parts) if isinstance(p, Slot) and i > 0 and isinstance(t.parts[i - 1], str)
+                    and t.parts[i - 1].endswith(".def_")), None)
+        if idx is None:
+            fixed = [p for p in t.parts if isinstance(p, str) and ".def_" in p]
+            if fixed:
+                hit = True
+                rep.add(rid, "property:def_readonly iff the declared type is const, else def_readwrite", False,
+                        f"the registration is the fixed text `{fixed[0][fixed[0].index('.def_'):][:24]}` whatever the declared type is: a const "
+                        f"member registered def_readwrite does not compile, a mutable one registered def_readonly cannot be assigned", f"{ci.mod.rel}:{c.lineno}")
+            continue
+        hit = True
+        e = t.parts[idx].val
+        atom = f"{loopvar}.ctype.is_const"
+        when = _two_way(e, atom)
+        ok = when == ("readonly", "readwrite")
+        rep.add(rid, "property:def_readonly iff the declared type is const, else def_readwrite", ok,
+                f"property <- {unparse(e)}: {when[0]!r} for a const type, {when[1]!r} otherwise" if when else f"property <- {unparse(e)}",
+                f"{ci.mod.rel}:{c.lineno}")
+        lit = t.literal("@").replace(" ", "")
+        slots = t.slots()
+        texts = [unparse(s_.val) for s_ in slots]
+        rep.add(rid, "property:bound as &Class::name under the same name",
+                lit == '@.def_@("@",&@::@)' and len(slots) == 5 and texts[2] == texts[4] == f"{loopvar}.name"
+                and texts[3] == func_params(fn)[2],
+                f"skeleton {lit!r}, slots {texts}", f"{ci.mod.rel}:{c.lineno}")
     if not hit:
         raise AnalysisError("wrap_properties: template not found")
+
+
+def _two_way(e: ast.AST, atom: str) -> Optional[Tuple[object, object]]:
+    """(value when `atom` is true, value when it is false) for a conditional expression whose test is the atom or its
+    negation and whose branches are constants; None otherwise."""
+    if not isinstance(e, ast.IfExp) or not isinstance(e.body, ast.Constant) or not isinstance(e.orelse, ast.Constant):
+        return None
+    t = e.test
+    neg = False
+    while isinstance(t, ast.UnaryOp) and isinstance(t.op, ast.Not):
+        neg = not neg
+        t = t.operand
+    if unparse(t) != atom:
+        return None
+    return (e.orelse.value, e.body.value) if neg else (e.body.value, e.orelse.value)
 
 
 def rule_operator_shape(ctx, rep: Report, rid="B7"):
@@ -588,7 +644,12 @@ def rule_operator_shape(ctx, rep: Report, rid="B7"):
     fn = prog.method("PybindWrapper", "wrap_operators")
     loop = next((l for l in walk_no_nested(fn) if isinstance(l, ast.For)), None)
     if loop is None:
-        raise AnalysisError("wrap_operators: loop not found")
+        # "".join(<text for op> for op in operators): the element expression is the loop body
+        comp = next((c for c in walk_no_nested(fn) if isinstance(c, (ast.GeneratorExp, ast.ListComp)) and len(c.generators) == 1
+                     and isinstance(c.generators[0].target, ast.Name)), None)
+        if comp is None:
+            raise AnalysisError("wrap_operators: loop not found")
+        loop = ast.For(target=comp.generators[0].target, iter=comp.generators[0].iter, body=[comp.elt], orelse=[], lineno=comp.lineno)
     var = loop.target.id
     fo = folder_for(ctx, fn)
     fo_here = fo
@@ -609,7 +670,7 @@ def rule_operator_shape(ctx, rep: Report, rid="B7"):
             h = prog.find_method(ci, hcalls[0].func.attr)
             if h is not None:
                 hf = h[1]
-                b = bind_call(hf, hcalls[0], drop_self=True)
+                b = bind_call(hf, hcalls[0], drop_self=not any(unparse(d) == "staticmethod" for d in hf.decorator_list))
                 caller_args = dict(b)
                 pv = next((k for k, v in b.items() if isinstance(v, ast.Name) and v.id == var), None)
                 if pv is not None:
@@ -676,26 +737,37 @@ def rule_same_entity(ctx, rep: Report, rid="B6"):
     loop = next((l for l in walk_no_nested(fn) if isinstance(l, ast.For)), None)
     ok = False
     detail = ""
-    if loop is not None:
-        for c in ast.walk(loop):
-            if isinstance(c, ast.Call) and isinstance(c.func, ast.Attribute) and c.func.attr == "format":
-                t = fo.fold(c)
-                if t is None:
-                    continue
-                fields = [s.field for s in t.slots()]
-                binds = {s.key: unparse(s.expr) for s in t.slots() if s.expr is not None}
-                lit = " ".join(t.literal("@").split())
-                detail = f"{lit!r} fields {fields} binds {binds}"
-                main = find_tpl(ctx, fn, {"cpp_class", "module"})
-                same_type = main is not None and binds.get("cpp_class") == unparse(main.slot("cpp_class").expr)
-                ok = lit == '@ .value("@", @::@)' and fields[1] == fields[3] == "enumerator.name" \
-                    and binds.get("enumerator") == loop.target.id and unparse(loop.iter).endswith(".enumerators") \
-                    and same_type
+
+    def after(t: Tpl, ending: str) -> Optional[Slot]:
+        """The slot that directly follows the literal text ending in `ending`."""
+        for i, p_ in enumerate(t.parts):
+            if isinstance(p_, Slot) and i > 0 and isinstance(t.parts[i - 1], str) and t.parts[i - 1].endswith(ending):
+                return p_
+        return None
+    main = None
+    for c in format_sites(fn):
+        t = fo.fold(c)
+        if t is not None and after(t.flat(), "py::enum_<") is not None:
+            main = t.flat()
+            break
+    tslot = after(main, "py::enum_<") if main is not None else None
+    if loop is not None and tslot is not None:
+        for c in format_sites(loop):
+            t = fo.fold(c)
+            if t is None:
+                continue
+            t = t.flat()
+            texts = [slot_text(s_) for s_ in t.slots()]
+            lit = " ".join(t.literal("@").split())
+            if ".value(" not in lit:
+                continue
+            detail = f"{lit!r} slots {texts}"
+            ok = lit == '@ .value("@", @::@)' and len(texts) == 4 and texts[1] == texts[3] == f"{loop.target.id}.name" \
+                and unparse(loop.iter).endswith(".enumerators") and texts[2] == slot_text(tslot)
     rep.add(rid, "enum:each enumerator bound to the C++ enumerator of the same name, in declared order", ok, detail,
             f"{ci.mod.rel}:{fn.lineno}")
-    et = find_tpl(ctx, fn, {"cpp_class", "module"})
-    cc = [unparse(v) for v in values_of(fn, et.slot("cpp_class").expr)] if et is not None else []
-    cname = unparse(et.slot("cpp_class").expr) if et is not None else "?"
+    cc = [unparse(v) for v in values_of(fn, tslot.expr)] if tslot is not None else []
+    cname = unparse(tslot.expr) if tslot is not None else "?"
     rep.add(rid, "enum:C++ type is the enum's own qualified name (class-scoped: Class::Enum)",
             cc[:1] == ["enum.cpp_typename().to_cpp()"] and any(x == f"class_name + '::' + {cname}" for x in cc), f"{cc}",
             f"{ci.mod.rel}:{fn.lineno}")
@@ -709,6 +781,11 @@ def rule_same_entity(ctx, rep: Report, rid="B6"):
             t = fo.fold(st.value)
             if t is not None and t.slot("class_parent") is not None and t.slot("cpp_class") is not None:
                 decl_tpls.append((st, t))
+    # a piece that other declaration templates are built from (`class_type + '(...)'`) is judged as part of those
+    pieces = {unparse(st.targets[0]) for st, _ in decl_tpls if len(st.targets) == 1 and isinstance(st.targets[0], ast.Name)
+              and any(st2 is not st and any(isinstance(x, ast.Name) and x.id == unparse(st.targets[0]) for x in ast.walk(st2.value))
+                      for st2, _ in decl_tpls)}
+    decl_tpls = [(st, t) for st, t in decl_tpls if not (len(st.targets) == 1 and unparse(st.targets[0]) in pieces)]
     if not decl_tpls:
         raise AnalysisError("wrap_instantiated_class: class declaration template not found")
     okp_all, guards_all, details = True, [], []
@@ -729,7 +806,7 @@ def rule_same_entity(ctx, rep: Report, rid="B6"):
             f"{ci.mod.rel}:{fn.lineno}")
     # callee spelling
     for name in ("_wrap_method", "wrap_functions"):
-        f2 = prog.method("PybindWrapper", name)
+        f2 = emitter(ctx, name)
         fc = find_tpl(ctx, f2, {"opt_return", "caller"})
         slot = None
         if fc is not None:
@@ -860,11 +937,11 @@ def rule_member_kinds(ctx, rep: Report, rid="A2"):
     t = fo.fold(rets[-1].value)
     if t is None:
         raise AnalysisError("wrap_instantiated_class: class template not foldable")
-    bound_text = " ".join(unparse(s.expr) for s in t.slots() if s.expr is not None)
+    bound_text = " ".join(unparse(s.val) for s in t.slots() if s.val is not None)
     # helpers that receive the whole class read their list themselves
     for s in t.slots():
-        if isinstance(s.expr, ast.Call) and any(isinstance(a, ast.Name) and a.id == p for a in s.expr.args):
-            callee = prog.find_method(ci, s.expr.func.attr) if isinstance(s.expr.func, ast.Attribute) else None
+        if isinstance(s.val, ast.Call) and any(isinstance(a, ast.Name) and a.id == p for a in s.val.args):
+            callee = prog.find_method(ci, s.val.func.attr) if isinstance(s.val.func, ast.Attribute) else None
             if callee:
                 q = func_params(callee[1])[1]
                 for x in ast.walk(callee[1]):
@@ -893,6 +970,69 @@ def rule_member_kinds(ctx, rep: Report, rid="A2"):
             f"skeleton {lit!r}", f"{ci.mod.rel}:{rets[-1].lineno}")
 
 
+def _is_common_prefix_test(pm: ast.FunctionDef) -> bool:
+    """pm(self, a, b) answers "a and b agree on every position both have": one of the normal forms
+    - a loop over range(min(len a, len b)) that answers False at the first position where the two differ, True after it;
+    - all(a[i] == b[i] for i in range(min..)) / not any(a[i] != b[i] ...), or the same over zip(a, b) (zip stops at the
+      shorter list);
+    - a[:n] == b[:n] with n = min(len a, len b).
+    Locals that stand for one expression are read through."""
+    a, b = func_params(pm)[1:3]
+
+    def is_min(e) -> bool:
+        t = unparse(inline_locals(pm, e)).replace(" ", "")
+        return t in (f"min(len({a}),len({b}))", f"min(len({b}),len({a}))")
+
+    def relation(t, xs, ys) -> Optional[bool]:
+        """True: t says the pair is equal, False: t says it differs, None: something else."""
+        neg = False
+        while isinstance(t, ast.UnaryOp) and isinstance(t.op, ast.Not):
+            neg, t = not neg, t.operand
+        if not (isinstance(t, ast.Compare) and len(t.ops) == 1 and isinstance(t.ops[0], (ast.Eq, ast.NotEq))):
+            return None
+        l, r = unparse(t.left).replace(" ", ""), unparse(t.comparators[0]).replace(" ", "")
+        if {l, r} != {xs, ys}:
+            return None
+        return isinstance(t.ops[0], ast.Eq) != neg
+
+    def over(gen_or_loop):
+        """(text of the two compared elements) for `for i in range(min)` / `for x, y in zip(a, b)`."""
+        it, tg = gen_or_loop.iter, gen_or_loop.target
+        if isinstance(it, ast.Call) and unparse(it.func) == "range" and len(it.args) == 1 and is_min(it.args[0]) and isinstance(tg, ast.Name):
+            return f"{a}[{tg.id}]", f"{b}[{tg.id}]"
+        if isinstance(it, ast.Call) and unparse(it.func) == "zip" and len(it.args) == 2 and {unparse(x) for x in it.args} == {a, b} \
+                and isinstance(tg, ast.Tuple) and len(tg.elts) == 2 and all(isinstance(x, ast.Name) for x in tg.elts):
+            return tg.elts[0].id, tg.elts[1].id
+        return None
+    body = [st for st in pm.body if not (isinstance(st, ast.Expr) and isinstance(st.value, ast.Constant))]
+    body = [st for st in body if not (isinstance(st, ast.Assign) and len(st.targets) == 1 and isinstance(st.targets[0], ast.Name)
+                                      and value_def(pm, st.targets[0].id) is not None)]
+    # loop form
+    if len(body) == 2 and isinstance(body[0], ast.For) and isinstance(body[1], ast.Return) and not body[0].orelse:
+        el = over(body[0])
+        lb = body[0].body
+        if el and len(lb) == 1 and isinstance(lb[0], ast.If) and not lb[0].orelse and len(lb[0].body) == 1 and isinstance(lb[0].body[0], ast.Return):
+            return relation(lb[0].test, *el) is False and unparse(lb[0].body[0].value) == "False" and unparse(body[1].value) == "True"
+        return False
+    if len(body) != 1 or not isinstance(body[0], ast.Return) or body[0].value is None:
+        return False
+    e = inline_locals(pm, body[0].value)
+    neg = False
+    while isinstance(e, ast.UnaryOp) and isinstance(e.op, ast.Not):
+        neg, e = not neg, e.operand
+    if isinstance(e, ast.Call) and isinstance(e.func, ast.Name) and e.func.id in ("all", "any") and len(e.args) == 1 \
+            and isinstance(e.args[0], (ast.GeneratorExp, ast.ListComp)) and len(e.args[0].generators) == 1 and not e.args[0].generators[0].ifs:
+        el = over(e.args[0].generators[0])
+        rel = relation(e.args[0].elt, *el) if el else None
+        return (e.func.id == "all" and rel is True and not neg) or (e.func.id == "any" and rel is False and neg)
+    if isinstance(e, ast.Compare) and len(e.ops) == 1 and isinstance(e.ops[0], ast.Eq) and not neg:
+        sides = [e.left, e.comparators[0]]
+        if all(isinstance(x, ast.Subscript) and isinstance(x.slice, ast.Slice) and x.slice.lower is None and x.slice.step is None
+               and x.slice.upper is not None and is_min(x.slice.upper) for x in sides):
+            return {unparse(x.value) for x in sides} == {a, b}
+    return False
+
+
 def rule_top_namespace_filter(ctx, rep: Report, rid="A3"):
     ci, prog = pw(ctx)
     fn = prog.method("PybindWrapper", "wrap_namespace")
@@ -912,18 +1052,7 @@ def rule_top_namespace_filter(ctx, rep: Report, rid="A3"):
             ok, f"guard {unparse(guard.test) if guard else None}", f"{ci.mod.rel}:{fn.lineno}")
     # prefix test normal form
     pm = prog.method("PybindWrapper", "_partial_match")
-    a, b = func_params(pm)[1:3]
-    loops = [l for l in walk_no_nested(pm) if isinstance(l, ast.For)]
-    ok2 = False
-    if len(loops) == 1:
-        it = unparse(loops[0].iter).replace(" ", "")
-        ok_it = it in (f"range(min(len({a}),len({b})))", f"range(min(len({b}),len({a})))")
-        i = loops[0].target.id if isinstance(loops[0].target, ast.Name) else "?"
-        tests = [unparse(x.test).replace(" ", "") for x in ast.walk(loops[0]) if isinstance(x, ast.If)]
-        ok_cmp = tests in ([f"{a}[{i}]!={b}[{i}]"], [f"{b}[{i}]!={a}[{i}]"])
-        rets = sorted((r for r in walk_no_nested(pm) if isinstance(r, ast.Return)), key=lambda r: r.lineno)
-        ok_ret = [unparse(r.value) for r in rets] == ["False", "True"]
-        ok2 = ok_it and ok_cmp and ok_ret
+    ok2 = _is_common_prefix_test(pm)
     rep.add(rid, "_partial_match:all positions below min(len a, len b) equal", ok2, unparse(pm)[-200:].replace("\n", " "),
             f"{ci.mod.rel}:{pm.lineno}")
     # shorter-than-top branch: only includes and recursion contribute
@@ -1175,7 +1304,7 @@ def rule_keyword_escaping(ctx, rep: Report, rid="A6"):
         return hf if found else None
 
     for name, slot in (("_wrap_method", "py_method"), ("wrap_functions", "function_name")):
-        fn = prog.method("PybindWrapper", name)
+        fn = emitter(ctx, name)
         tpl0 = find_tpl(ctx, fn, {slot, "prefix"})
         if tpl0 is None or not isinstance(tpl0.slot(slot).expr, ast.Name):
             raise AnalysisError(f"{name}: the binding's name slot {{{slot}}} is not bound to a local")
